@@ -10,7 +10,9 @@ for d in sys.argv[1:]:
         print(d, 'not confirmed - skipped')
         continue
     meta = json.load(open(os.path.join(d, 'meta.json')))
-    sid = '%s-%s' % (meta['property'], os.path.basename(d))
+    # second-round seeds live under /tmp/seed2/<Cnn>/m<k>: keep them apart from the first round's
+    rnd = 'r2' if os.sep + 'seed2' + os.sep in d else ''
+    sid = '%s-%s%s' % (meta['property'], rnd, os.path.basename(d))
     dst = os.path.join(ROOT, 'seeded', sid)
     os.makedirs(dst, exist_ok=True)
     for f in os.listdir(d):
